@@ -11,7 +11,7 @@ TERM = "::dxrt::Term"
 def specs_all(tier):
     out = []
     k = 0
-    shapes = ["plain", "generic", "generic_self_where", "output_self"]
+    shapes = ["plain", "generic", "generic_self_where", "generic_self_hrtb", "output_self"]
     for op in C.BINOPS:
         for shape in shapes:
             for lref in (False, True):
@@ -20,7 +20,9 @@ def specs_all(tier):
                         for req in (["Op"], ["OpAssign"], ["Op", "OpAssign"], ["OpAssign", "Op"]):
                             k += 1
                             out.append({"op": op, "base": "binary", "lref": lref, "rref": rref, "other": rhs_other, "req": req,
-                                        "shape": shape, "omit_rhs": (not rhs_other and not lref and not rref and k % 2 == 0)})
+                                        "shape": shape, "omit_rhs": (not rhs_other and not lref and not rref and k % 2 == 0),
+                                        # where the user wrote `type Output` inside the impl: before or after the method
+                                        "out_last": k % 3 == 0})
             for rref in (False, True):
                 for rhs_other in (False, True):
                     out.append({"op": op, "base": "assign", "lref": False, "rref": rref, "other": rhs_other, "req": ["Op"],
@@ -44,6 +46,9 @@ def render(s):
         wh = f"where T: ::core::clone::Clone + ::dxrt::Tm"
         if s["shape"] == "generic_self_where":
             wh += ", Self: ::core::marker::Sized"
+        if s["shape"] == "generic_self_hrtb":
+            # a predicate on `Self` that is already higher-ranked
+            wh += ", for<'b> Self: ::dxrt::TagL<'b>"
     defs = [f"#[derive(Clone)] pub struct A{g}(pub {fty});"]
     if s["other"]:
         defs.append(f"#[derive(Clone)] pub struct O{g}(pub {fty});")
@@ -62,10 +67,12 @@ def render(s):
     log = '::dxrt::trace(format!("user {} {}", l, r));'
     if s["base"] == "binary":
         targ = "" if s["omit_rhs"] else f"<{rhs_ty}>"
+        items = [f"    type Output = {out_ty};",
+                 f"    fn {fn}(self, uo: {rhs_ty}) -> {A} {{ let l = {getl}; let r = {getr}; {log} A({bin_val}) }}"]
+        if s.get("out_last"):
+            items.reverse()
         impl = (f"#[::derive_ex::derive_ex({reqs})]\n"
-                f"impl{g} ::core::ops::{op}{targ} for {lhs_ty} {wh} {{\n"
-                f"    type Output = {out_ty};\n"
-                f"    fn {fn}(self, uo: {rhs_ty}) -> {A} {{ let l = {getl}; let r = {getr}; {log} A({bin_val}) }}\n}}")
+                f"impl{g} ::core::ops::{op}{targ} for {lhs_ty} {wh} {{\n" + "\n".join(items) + "\n}")
     else:
         impl = (f"#[::derive_ex::derive_ex({reqs})]\n"
                 f"impl{g} ::core::ops::{op}Assign<{rhs_ty}> for {A} {wh} {{\n"
